@@ -16,7 +16,7 @@ Want(e) == SpecDiag(ToProg(e.old), ToProg(e.new))
 \* known finding C20-deleted-service-base-name: a deleted service is attributed to the base name of its
 \* file (the directory is lost); e.base maps every path to its base name
 BaseOf(e, f) == e.base[f]
-IsDelete(d) == \E i \in 1..1 : d[2] \in { MsgDeleteService(s) : s \in {"K", "L", "M", "Z", "Y"} }
+IsDelete(d) == \E i \in 1..1 : d[2] \in { MsgDeleteService(s) : s \in {"K", "L", "M", "Z", "Y", "P"} }
 WantKnown(e) == { IF IsDelete(d) THEN << BaseOf(e, d[1]), d[2] >> ELSE d : d \in Want(e) }
 Affected(e) == WantKnown(e) # Want(e)
 AsLines(D) == { d[1] \o ":" \o d[2] : d \in D }
